@@ -1,7 +1,7 @@
 (* Correspondence obligations for C18: what the implementation was observed to do on a generated Go type
    and value (harness/cmd/c18) against what the model of coq/Model/Reflect.v computes. *)
 From Coq Require Import ZArith NArith Bool List.
-From PcoreV Require Import Model.Base Model.Reflect.
+From PcoreV Require Import Model.Base Model.Reflect Model.ReflectNamed.
 Import ListNotations.
 Open Scope Z_scope.
 
@@ -172,3 +172,31 @@ Definition c18_check (tbl : list (Z * str)) (c : rcase) : bool :=
   end.
 
 Definition c18_mismatches (tbl : list (Z * str)) (cs : list rcase) : list N := failing (c18_check tbl) cs.
+
+(* ------------------------------------------------------------------------------------------------ *)
+(** * Statically declared Go types (harness/cmd/c18/static.go): defined scalar / slice / map types and structs that embed
+      other structs, against Model/ReflectNamed.v *)
+
+Inductive ncase :=
+| NCase (t : gty) (m : nmask) (v : gval)
+        (pt : res ty)           (* px.WrapReflectedType *)
+        (w : res value)         (* px.Wrap *)
+        (accepted : bool)       (* px.IsInstance(derived type, wrapped) *)
+        (back : res gval)       (* Reflector.Reflect2(wrapped, the Go type) *)
+| ACase (has_parent : bool)     (* the object type was derived with a declared parent *)
+        (fs : list (str * bool))        (* the fields of the struct: Go name, embedded? *)
+        (own : list str).       (* the attributes the derived object type declares itself (parent's excluded), in order *)
+
+Definition c18n_check (tbl : list (Z * str)) (c : ncase) : bool :=
+  match c with
+  | NCase t m v pt ow acc back =>
+      let w := wrapn (ffmt_of tbl) true t m v in
+      has_type v t &&
+      res_eqb ty_eqb pt (Ok (ptype_n t m)) &&
+      res_eqb value_eqb ow (Ok w) &&
+      Bool.eqb acc (inst (ptype_n t m) w) &&
+      res_eqb gval_eqb back (reflect_to t w)
+  | ACase p fs own => str_eqb_list own (own_attr_names p fs)
+  end.
+
+Definition c18n_mismatches (tbl : list (Z * str)) (cs : list ncase) : list N := failing (c18n_check tbl) cs.
